@@ -393,6 +393,58 @@ func checkC11(c *core.Ctx) {
 			nontrivial++
 		}
 	}
+	// (0) fixed schemas whose tables are NOT in alphabetical order, with documents that
+	// drive every rule and every suggestion / lookup path (unknown fields on interfaces
+	// and unions, misspelt types, arguments, directives, enum values): one history with a
+	// snapshot around every call, one run of 4 goroutines under the race detector.
+	for _, hs := range []struct {
+		sdl  string
+		docs []string
+	}{{detSDL, detDocs}, {handRuleSDL, handRuleDocs}} {
+		var calls []sharedCall
+		for i, q := range hs.docs {
+			if i%25 == 24 {
+				calls = append(calls, sharedCall{Op: "format"})
+			}
+			calls = append(calls, sharedCall{Op: "validate", Query: q})
+		}
+		for i := range calls {
+			fresh, err := gqlparser.LoadSchema(&ast.Source{Name: "schema.graphql", Input: hs.sdl})
+			if err != nil {
+				c.Internal("hand schema does not load: %v", err)
+				return
+			}
+			calls[i].Alone = runSharedCall(fresh, &calls[i])
+		}
+		shared, _ := gqlparser.LoadSchema(&ast.Source{Name: "schema.graphql", Input: hs.sdl})
+		snaps := []string{SchemaSnapshot(shared)}
+		var evs []sharedEvent
+		for ci := range calls {
+			evs = append(evs, sharedEvent{E: "begin", Call: ci + 1, Seq: int64(2*ci + 1)})
+			res := runSharedCall(shared, &calls[ci])
+			evs = append(evs, sharedEvent{E: "end", Call: ci + 1, Result: res, Seq: int64(2*ci + 2)})
+			snaps = append(snaps, SchemaSnapshot(shared))
+		}
+		addCase(fmt.Sprintf("history of the %d hand-written documents on schema %q", len(calls), clip(hs.sdl, 200)), calls, evs, snaps, 0)
+		plan := sharedPlan{SDL: hs.sdl, Calls: calls, Goroutines: 4, Seed: c.Seed*1000 + 4}
+		in, _ := json.Marshal(plan)
+		wr := RunWorker(4*time.Minute, in, "shared")
+		races := strings.Count(wr.Stderr, "DATA RACE")
+		if wr.TimedOut {
+			c.Violation("4 goroutines on the hand-written schema did not finish within 4 minutes", map[string]any{"plan": plan})
+			continue
+		}
+		var out sharedOut
+		if err := json.Unmarshal(wr.Stdout, &out); err != nil {
+			if races > 0 || wr.Crashed {
+				addCase(fmt.Sprintf("4 goroutines on schema %q: %s", clip(hs.sdl, 200), firstLines(wr.Stderr, 12)), calls, nil, []string{"x", "x"}, maxInt(races, 1))
+				continue
+			}
+			c.Internal("shared worker: bad output: %v", err)
+			return
+		}
+		addCase(fmt.Sprintf("4 goroutines, %d events on the hand-written schema %q: %s", len(out.Events), clip(hs.sdl, 200), firstLines(wr.Stderr, 12)), calls, out.Events, out.Snaps, races)
+	}
 	for si := 0; si < nschemas; si++ {
 		var sdl string
 		var schema *ast.Schema
